@@ -3,10 +3,12 @@
 
   Full statement (kept visible).  Proved for every well-formed type whose set elements, map keys
   and index-set elements are *key types* (`keysOk`; a key type is one whose canonical form is
-  the value itself — no hash collection, deque, skipped field or init hook inside the key).  What
-  is missing from the full statement: keys that themselves contain keyed collections or deques
-  (e.g. `BTreeSet<BTreeSet<u8>>`), where canonicalisation and ordering do not commute
-  syntactically.  Hence the `_partial` suffix is kept.
+  the value itself — no hash collection, deque, skipped field or init hook inside the key; ordered
+  sets and maps of key types are key types, e.g. `BTreeSet<BTreeSet<u8>>`).  What is excluded is
+  partly necessary: for keys with a skipped field the statement is false (theorem
+  `C01_skipped_key_field_boundary`, replayed on the real code); hash collections and deques as keys
+  are excluded because their representation order and their logical order differ.  Hence the
+  `_partial` suffix is kept.
 -/
 import BorshModel.Lemmas.RoundtripKeyed
 namespace Borsh
@@ -75,6 +77,23 @@ example :
       (fromSlice true t [2, 0, 0, 0, 1, 0, 0, 0, 97, 0, 0, 0, 0,
                          1, 0, 0, 0, 98, 2, 0, 0, 0, 1, 0, 2, 0]).okVal
         (.list [.list [.blob [97], .list []], .list [.blob [98], .list [.int 1, .int 2]]])) = true := by
+  decide +kernel
+
+/-- **Why `keysOk` cannot simply be dropped** (scope boundary S8, replayed on the real code): a set
+whose element type has a skipped field.  `struct K { a: u8, #[borsh(skip)] b: u8 }` with the derived
+`Ord`; the set `{K{1,2}, K{1,3}}` serializes to `02 00 00 00 01 01` — two equal elements on the wire.
+Without `de_strict_order` it reads back as the one-element set `{K{1,0}}`; with it, it is rejected
+(keys not ascending).  The format does not carry what distinguished the two keys, so no decoder could
+do better; the round-trip theorem therefore excludes keys whose identity depends on data the format
+does not carry (skipped fields, init hooks), and hash collections / deques inside keys. -/
+theorem C01_skipped_key_field_boundary :
+    let k := Ty.prod (.struct [75] false) [(some [97], false, .int .u8), (some [98], true, .int .u8)]
+    let t := Ty.set .btreeSet k
+    let v := Val.list [.list [.int 1, .int 2], .list [.int 1, .int 3]]
+    (WfTy t && HasTy t v && !keysOk t &&
+      (toVec t v).okBytes [2, 0, 0, 0, 1, 1] &&
+      (fromSlice false t [2, 0, 0, 0, 1, 1]).okVal (.list [.list [.int 1, .int 0]]) &&
+      (fromSlice true t [2, 0, 0, 0, 1, 1]).errIs ⟨.invalidData, .keyOrder⟩) = true := by
   decide +kernel
 
 end Borsh
